@@ -43,12 +43,36 @@ theorem c07_units_rejected_unchanged (U : NR.Coll.Units) (ops : List NR.Coll.COp
       (NR.Coll.runOps U (NR.Coll.start U) ops) :=
   NR.Props.C08.c08_rejected_unchanged U ops op hU hops hop hin hrej
 
-/-- Un-planning a plan-all unit whose SECOND member's un-plan is rejected: the call returns true,
-the first member is off its route, the second still on it — half planned. -/
+/-- As it was until E16 was repaired — un-planning a plan-all unit whose SECOND member's un-plan is rejected: the call
+returned true, the first member was off its route, the second still on it — half planned. -/
 theorem c07_counterexample_nested :
     let s := NR.Coll.runOps NR.Props.C08.exAll (NR.Coll.start NR.Props.C08.exAll) [.execUnits 0 [(1, true), (2, true)] []]
-    (NR.Coll.unplanUnits NR.Props.C08.exAll s 0 [true, false]).2 = true ∧
-    (NR.Coll.unplanUnits NR.Props.C08.exAll s 0 [true, false]).1.onRoute = [2] := by
+    (NR.Coll.unplanUnitsGiven NR.Props.C08.exAll s 0 [true, false]).2 = true ∧
+    (NR.Coll.unplanUnitsGiven NR.Props.C08.exAll s 0 [true, false]).1.onRoute = [2] := by
+  decide
+
+/-- As repaired: the un-plan of a plan-all unit is all-or-nothing for EVERY pattern of accepted and rejected member
+un-plans — a call that reports failure leaves the state exactly as it was (the members un-planned before the rejected one
+are planned again where they were; that this restoration goes through is `c07_group_unplan_rollback_restores`). -/
+theorem c07_group_unplan_all_or_nothing (U : NR.Coll.Units) (s : NR.Coll.CState) (p : Nat) (bits : List Bool)
+    (members : List Nat) (hk : NR.Coll.kindOf U p = .all members)
+    (hrej : (NR.Coll.unplanUnits U s p bits).2 = false) : (NR.Coll.unplanUnits U s p bits).1 = s := by
+  unfold NR.Coll.unplanUnits at *
+  split
+  · rfl
+  · rename_i hne
+    simp only [hne, hk] at hrej ⊢
+    split
+    · rename_i s' hs'
+      simp only [hs'] at hrej
+      simp at hrej
+    · rfl
+
+/-- the same example as above, repaired: the call reports failure and nothing has changed -/
+theorem c07_nested_repaired :
+    let s := NR.Coll.runOps NR.Props.C08.exAll (NR.Coll.start NR.Props.C08.exAll) [.execUnits 0 [(1, true), (2, true)] []]
+    (NR.Coll.unplanUnits NR.Props.C08.exAll s 0 [true, false]).2 = false ∧
+    (NR.Coll.unplanUnits NR.Props.C08.exAll s 0 [true, false]).1 = s := by
   decide
 
 end NR.Props.C07
@@ -58,3 +82,5 @@ end NR.Props.C07
 #print axioms NR.Props.C07.c07_rollback_always_completes
 #print axioms NR.Props.C07.c07_units_rejected_unchanged
 #print axioms NR.Props.C07.c07_counterexample_nested
+#print axioms NR.Props.C07.c07_group_unplan_all_or_nothing
+#print axioms NR.Props.C07.c07_nested_repaired
